@@ -55,6 +55,26 @@ pub fn mk(width: u8, nfats: u32, ext_flags: u16, nibble: u32, nfree: usize, name
     vol::cfg_from(name, img, Some(cands))
 }
 
+/// other geometries: `spc` sectors per cluster, `slack` sectors behind the last cluster, `clusters` clusters; three free
+/// clusters at the start and the last two
+pub fn mk_geo(width: u8, spc: u32, slack: u32, clusters: u64, name: &str) -> Cfg {
+    let mut s = MkSpec::new(width);
+    s.spc = spc;
+    s.slack_sectors = slack;
+    s.clusters = clusters;
+    let mut b = Builder::new(s);
+    let last = b.geo.max_cluster();
+    let first = if width == 32 { 3 } else { 2 };
+    let keep: Vec<u32> = vec![first, first + 1, first + 2, last - 1, last];
+    b.ballast(&keep);
+    b.set_fsinfo(keep.len() as u32, 0xFFFF_FFFF);
+    let mut cands = keep.clone();
+    if width == 32 {
+        cands.push(2);
+    }
+    vol::cfg_from(name, b.finish(), Some(cands))
+}
+
 /// volume with the largest cluster count of its FAT width (4084 / 65524): only the `nfree` highest-numbered clusters
 /// are free, so every allocation hands out cluster numbers 0xFEE..=0xFF5 resp. 0xFFEE..=0xFFF5, just below the
 /// reserved values of the width
@@ -90,6 +110,14 @@ pub fn configs(th: bool) -> Vec<Cfg> {
     // reserved top nibbles pre-set on every entry
     v.push(mk(32, 2, 0, 0xA, 5, "m32-2f-mirror-nibA"));
     v.push(mk(32, 2, 0x81, 0xA, 5, "m32-2f-active1-nibA"));
+    // a different reserved nibble in every entry (all four bits occur; an update that takes the bits from a
+    // neighbouring entry, or masks one bit too many, shows)
+    v.push(mk(32, 2, 0, 0x10, 5, "m32-2f-mirror-nibvar"));
+    // clusters of several sectors with slack sectors behind the last cluster; an odd FAT12 cluster count
+    v.push(mk_geo(12, 4, 3, 40, "m12-spc4-slack3"));
+    v.push(mk_geo(12, 1, 0, 41, "m12-41-clusters"));
+    v.push(mk_geo(16, 2, 1, 4085, "m16-spc2-slack1"));
+    v.push(mk_geo(32, 8, 7, 65525, "m32-spc8-slack7"));
     if th {
         v.push(mk(32, 3, 0x82, 0x5, 5, "m32-3f-active2-nib5"));
     }
@@ -127,7 +155,11 @@ pub fn specs(tier: &str) -> Vec<ExpSpec> {
             } else {
                 3
             };
-            ExpSpec::new(c, alpha::mixed(512), d)
+            let cs = {
+                let st = DevState::new(c.base.clone());
+                harness::decoder::parse_raw(&st.read_vec(0, 512)).map(|g| g.cluster_size() as u32).unwrap_or(512)
+            };
+            ExpSpec::new(c, alpha::mixed(cs), d)
         })
         .collect()
 }
